@@ -1028,4 +1028,12 @@ def _lump_component(sc, v, at):
                             return e.slice.value
     if isinstance(v, ast.Subscript) and isinstance(v.slice, ast.Constant) and isinstance(v.slice.value, str):
         return v.slice.value
+    # k[2] with k the (not unpacked) key tuple of the lump loop
+    if isinstance(v, ast.Subscript) and isinstance(v.slice, ast.Constant) and isinstance(v.slice.value, int) and isinstance(v.value, ast.Name):
+        if any(d.kind == "for" or isinstance(d.stmt, ast.For) for d in sc.defs.get(v.value.id, [])):
+            for kd in sc.defs.get("key", []):
+                if kd.kind == "assign" and isinstance(kd.value, ast.Tuple) and 0 <= v.slice.value < len(kd.value.elts):
+                    e = kd.value.elts[v.slice.value]
+                    if isinstance(e, ast.Subscript) and isinstance(e.slice, ast.Constant):
+                        return e.slice.value
     return None
